@@ -13,7 +13,7 @@ from .jobs import REGISTRY, Collector, job
 from .sym import Sym, same, short
 
 
-def mk_sel_spec(n, edges, rng, setup=(), debug=(), tags=None, with_param=(), mc=None, kw_edges=()):
+def mk_sel_spec(n, edges, rng, setup=(), debug=(), tags=None, with_param=(), mc=None, kw_edges=(), keyed_returns=False):
     fns, nodes = {}, []
     for i in range(n):
         fns["f%d" % i] = dict(priority=rng.choice([0, 0, 1, 3, -1]), is_sequential=rng.random() < 0.1,
@@ -29,8 +29,17 @@ def mk_sel_spec(n, edges, rng, setup=(), debug=(), tags=None, with_param=(), mc=
         if i in with_param:
             nd["args"].append(["p", "x"])
         nodes.append(nd)
+    ret = [["n", i, []] for i in range(n)]
+    if keyed_returns:
+        # some functions return a 2-tuple; the DAG returns one element of it (a key path into a possibly unselected node)
+        for i in range(n):
+            if rng.random() < 0.3 and not any(k == i for (_j, k) in []) and i not in setup:
+                users = [m for m in nodes if any(a[0] == "n" and a[1] == i for a in list(m["args"]) + list(m["kwargs"].values()))]
+                if not users:
+                    fns["f%d" % i]["shape"] = ["tuple", 2]
+                    ret[i] = ["n", i, [rng.randrange(2)]]
     return {"name": "prog", "params": ["x"], "defaults": {"x": 7}, "fns": fns, "nodes": nodes,
-            "ret": ["tuple", [["n", i, []] for i in range(n)]], "mc": mc or rng.randint(1, 3), "is_async": False}
+            "ret": ["tuple", ret], "mc": mc or rng.randint(1, 3), "is_async": False}
 
 
 def alias_of(rng, d, spec, ids, i, tags, form=None):
@@ -161,9 +170,9 @@ def run_shape(col, pid, rng, n, edges, exhaustive, limit, with_setup=False, with
                 setup.add(i)
     kw_edges = {e for e in edges if rng.random() < 0.3}
     with_param = {i for i in range(n) if i not in setup and g0.in_degree(i) > 0 and rng.random() < 0.3}
-    spec = mk_sel_spec(n, edges, rng, setup=setup, tags=tags, with_param=with_param, kw_edges=kw_edges)
+    spec = mk_sel_spec(n, edges, rng, setup=setup, tags=tags, with_param=with_param, kw_edges=kw_edges, keyed_returns=rng.random() < 0.5)
     spec["is_async"] = rng.random() < 0.25
-    plain = {name: probes.mkprobe(name) for name in spec["fns"]}
+    plain = {name: probes.mkprobe(name, shape=tuple(fs["shape"]) if fs.get("shape") else None) for name, fs in spec["fns"].items()}
     ids = S.node_ids(spec)
     rp = {"kind": "sel_case", "n": n, "edges": edges, "spec": spec, "source": S.render(spec)}
     d = None
@@ -252,7 +261,7 @@ def _replay_sel(j, rp):
     rng = random.Random(0)
     spec = rp["spec"]
     ids = S.node_ids(spec)
-    plain = {name: probes.mkprobe(name) for name in spec["fns"]}
+    plain = {name: probes.mkprobe(name, shape=tuple(fs["shape"]) if fs.get("shape") else None) for name, fs in spec["fns"].items()}
     tags = {i: spec["fns"][nd["fn"]].get("tag") for i, nd in enumerate(spec["nodes"]) if spec["fns"][nd["fn"]].get("tag") is not None}
     trs = [tuple(rp["triple"])] if rp.get("triple") else triples_for(spec, rng, False, 200)
     for (R, X, T) in trs:
@@ -417,12 +426,22 @@ def dbg_shape(col, pid, rng, n, edges):
     if n >= 2 and edges:
         j, k = rng.choice(edges)
         bad = mk_sel_spec(n, edges, rng, debug={j})
+        how = rng.choice(["positional", "keyword", "activation_flag"])
+        ndk = bad["nodes"][k]
+        if how != "positional":
+            ndk["args"] = [a for a in ndk["args"] if not (a[0] == "n" and a[1] == j)]
+            ndk["kwargs"] = {kk: a for kk, a in ndk["kwargs"].items() if not (a[0] == "n" and a[1] == j)}
+            if how == "keyword":
+                ndk["kwargs"]["kdbg"] = ["n", j, []]
+            else:
+                ndk["active"] = ["n", j, []]
+        col.counters["c13_illegal_build_via_%s" % how] += 1
         if not bad["fns"]["f%d" % k]["debug"]:
             col.counters["c13_illegal_build_cases"] += 1
             col.evaluations += 1
             try:
                 S.build_tawazi(bad)
-                col.violation(pid, "non_debug_depending_on_debug_was_not_rejected", dict(source=S.render(bad), debug=["f%d" % j]), rp)
+                col.violation(pid, "non_debug_depending_on_debug_was_not_rejected(%s)" % how, dict(source=S.render(bad), debug=["f%d" % j]), rp)
             except BaseException as e:  # noqa: BLE001
                 col.counters["c13_illegal_build_rejected"] += 1
                 if isinstance(e, (KeyboardInterrupt, SystemExit)):
